@@ -67,6 +67,7 @@ def required(tier):
         "perm_invariance_checked": 500, "m1_crosscheck": 200, "exchange_checked": 1000, "exchange_swaps_observed": 100,
         "orch_mutation_calls": 100, "orch_swap_calls": 50, "rows_cache_enabled": 500, "recomb_rows_with_options": 100,
         "dosage_rows_with_options": 100, "compound_kernels_checked": 10, "compound_paths_enumerated": 2000,
+        "instances_ploidy_5_6_three_sites": 10,
     }
 
 
@@ -84,10 +85,19 @@ def make_instance(rng, tier):
         # high ploidy (pooled samples) on a tiny locus
         ploidy = int(rng.choice([6, 8]))
         n_pos = int(rng.choice([1, 2]))
+    rich = (not high) and rng.random() < 0.12
+    if rich:
+        # ploidy 5-6 over 8-12 possible haplotypes: genotypes of copy-number pattern 2:1:1:1(:1) whose recombinants keep the
+        # pattern but differ in their NUMBER of recombination options exist only here (not at ploidy <= 4, not with <= 4 haplotypes)
+        ploidy = int(rng.choice([5, 5, 6]))
+        n_pos = 3
     while True:
         n_alleles = rng.choice([2, 2, 3, 4], size=n_pos)
         if high:
             n_alleles = np.full(n_pos, 2)
+        if rich:
+            n_alleles = np.array([2, 2, 2]) if rng.random() < 0.7 else rng.permutation([3, 2, 2])
+            break
         if int(np.prod(n_alleles)) <= (16 if ploidy <= 3 else 9):
             break
     n_nucl = int(max(2, n_alleles.max()))
@@ -108,7 +118,7 @@ def make_instance(rng, tier):
     F = float(rng.choice([0.0, 0.01, 0.9])) if rng.random() < 0.6 else float(rng.uniform(0.0, 0.99))
     T = float(rng.choice([1.0, 0.05])) if rng.random() < 0.5 else float(rng.uniform(0.01, 1.0))
     return dict(ploidy=ploidy, n_alleles=n_alleles.astype(np.int8), reads=reads, counts=counts, F=F, T=T,
-                use_cache=bool(rng.random() < 0.5))
+                use_cache=bool(rng.random() < 0.5), rich=bool(rich))
 
 
 def pack_instance(I):
@@ -273,6 +283,8 @@ def check_instance(I, rng, col, tier, inst_id, only_state=None):
     if exhaustive:
         col.count("instances_exhaustive")
     col.count("instances")
+    if I.get("rich"):
+        col.count("instances_ploidy_5_6_three_sites")
     ploidy, n_pos = I["ploidy"], len(I["n_alleles"])
     intervals = [(a, b) for a in range(n_pos) for b in range(a + 1, n_pos + 1)]
     packed = None
